@@ -272,3 +272,88 @@ def ob_polyrec(r, tier, seed):
 _obligations_73 = obligations
 def obligations():
     return _obligations_73() + [Ob('O7.4-specialisation-terminates', 'monomorphisation terminates on a generic function calling itself at a type built from its parameter', ob_polyrec, ('quick', 'thorough'), 5, {})]
+
+# ----------------------------------------------------------------------------- O7.5 every call site of a generic function gets the instance of its own type arguments; no type parameter survives
+def shape_has_param(sh):
+    return sh['k'] == 'TParam' or ('base' in sh and shape_has_param(sh['base'])) or any(shape_has_param(x) for x in sh.get('a', []))
+
+def replay_mono_program(kind):
+    src = {'result-only': 'fn mk[T]() -> Vec[T] { vec_new() }\nfn main() -> unit { let a: Vec[int32] = mk(); let b: Vec[bool] = mk(); () }\n',
+           'param': 'fn id[T](x: T) -> T { x }\nfn main() -> unit { let a = id(1); let b = id(true); () }\n',
+           'fn-result': 'fn run[A, B](f: (A) -> B, x: A) -> unit { () }\nfn s(x: int32) -> string { "a" }\nfn b(x: int32) -> bool { true }\nfn main() -> unit { let u = run(s, 1); let v = run(b, 1); () }\n'}[kind]
+    d = tempfile.mkdtemp(prefix='vf-c07-')
+    try:
+        open(os.path.join(d, 'main.gom'), 'w').write(src)
+        p = subprocess.run([build.compiler_bin(), 'run', '--dump-mono', os.path.join(d, 'main.gom')], capture_output=True, text=True, timeout=60)
+    finally: shutil.rmtree(d, ignore_errors=True)
+    txt = p.stdout
+    import re as _re
+    gen = {'result-only': 'mk', 'param': 'id', 'fn-result': 'run'}[kind]
+    insts = sorted(set(_re.findall(r'^fn (%s\w*)\(' % gen, txt, _re.M)))
+    resid = [l for l in txt.splitlines() if _re.search(r'\b[TAB]\b', l) and l.startswith('fn ')]
+    return len(insts) != 2 or bool(resid), 'goml `%s`: mono dump has the instances %s%s' % (src.replace('\n', ' | '), insts, (' and type parameters left in ' + resid[0]) if resid else '')
+
+def ob_mono_instances(r, tier, seed):
+    W = e2.fresh_world(CRATES); tt = W.tt; W.step_limit = 400000
+    TY = tt.find_adt(['tast', 'Ty'], 'compiler'); CE = tt.find_adt(['core', 'Expr'], 'compiler'); CF = tt.find_adt(['core', 'Fn'], 'compiler'); CFILE = tt.find_adt(['core', 'File'], 'compiler')
+    PR = tt.find_adt(['common', 'Prim'], 'compiler'); MFN = [a for a in tt.by_name['MonoFn'] if a.crate == 'compiler'][0]
+    r.bounds = 'three programs with one generic function called at two different type arguments from main: the parameter occurs (a) only in the result type `fn mk[T]() -> Vec[T]`, (b) in a value parameter `fn id[T](x: T) -> T`, (c) only in the result of a function-typed parameter `fn run[A, B](f: (A) -> B, x: A)`'
+    r.assumptions = ['names::ty_compact replaced by an injective stand-in', 'oracle: mono::mono emits exactly two instances of the generic function, with the two instantiated signatures, and no function of the output mentions a type parameter']
+    def m_ty_compact(ex, a): return mkstr(json.dumps(shape(ex.deref(a[0]), TY), sort_keys=True).replace(' ', ''))
+    W.stubs['ty_compact'] = m_ty_compact
+    T = lambda n, *f: Agg(TY.key, TY.vindex(n), list(f))
+    E = lambda n, **kw: Agg(CE.key, CE.vindex(n), [kw[f[0]] for f in CE.variants[CE.vindex(n)].fields])
+    def fn(name, generics, params, ret, body): return Agg(CF.key, 0, [{'name': mkstr(name), 'generics': PyVec([mkstr(g) for g in generics]), 'params': PyVec([Agg('tuple', 0, [mkstr(n), t]) for n, t in params]), 'ret_ty': ret, 'body': body}[fl[0]] for fl in CF.variants[0].fields])
+    def entry(ex):
+        kind = ex.choose([(True, k) for k in ('result-only', 'param', 'fn-result')]); ex.notes['kind'] = kind
+        i32, bl, st, un = T('TInt32'), T('TBool'), T('TString'), T('TUnit'); tp = lambda n: T('TParam', mkstr(n))
+        unit = E('EPrim', value=Agg(PR.key, PR.vindex('Unit'), [ms.UNIT]), ty=un)
+        def let(n, v, body): return E('ELet', name=mkstr(n), value=mkbox(v), body=mkbox(body), ty=un)
+        def call(f, fty, args, ty): return E('ECall', func=mkbox(E('EVar', name=mkstr(f), ty=fty)), args=PyVec(args), ty=ty)
+        vec = lambda t: T('TVec', mkbox(t)); fun = lambda ps, r_: T('TFunc', PyVec(ps), mkbox(r_))
+        if kind == 'result-only':
+            g = fn('mk', ['T'], [], vec(tp('T')), E('EVar', name=mkstr('w'), ty=vec(tp('T'))))
+            body = let('a', call('mk', fun([], vec(i32)), [], vec(i32)), let('b', call('mk', fun([], vec(bl)), [], vec(bl)), unit))
+            fns = [g]; gname = 'mk'; want = [([], 'TInt32'), ([], 'TBool')]
+        elif kind == 'param':
+            g = fn('id', ['T'], [('x', tp('T'))], tp('T'), E('EVar', name=mkstr('x'), ty=tp('T')))
+            one = E('EPrim', value=Agg(PR.key, PR.vindex('Int32'), [1]), ty=i32); tr = E('EPrim', value=Agg(PR.key, PR.vindex('Bool'), [True]), ty=bl)
+            body = let('a', call('id', fun([i32], i32), [one], i32), let('b', call('id', fun([bl], bl), [tr], bl), unit))
+            fns = [g]; gname = 'id'
+        else:
+            g = fn('run', ['A', 'B'], [('f', fun([tp('A')], tp('B'))), ('x', tp('A'))], un, unit)
+            s_ = fn('s', [], [('x', i32)], st, E('EVar', name=mkstr('q'), ty=st)); b_ = fn('b', [], [('x', i32)], bl, E('EVar', name=mkstr('q'), ty=bl))
+            one = E('EPrim', value=Agg(PR.key, PR.vindex('Int32'), [1]), ty=i32)
+            c1 = call('run', fun([fun([i32], st), i32], un), [E('EVar', name=mkstr('s'), ty=fun([i32], st)), one], un)
+            c2 = call('run', fun([fun([i32], bl), i32], un), [E('EVar', name=mkstr('b'), ty=fun([i32], bl)), one], un)
+            body = let('u', c1, let('v', c2, unit)); fns = [g, s_, b_]; gname = 'run'
+        main = fn('main', [], [], un, body)
+        genv = ex.call('env::GlobalTypeEnv::new_empty', [])
+        from mirsym.engine import Limit, Panic
+        try: res = ex.call('mono::mono', [genv, Agg(CFILE.key, 0, [PyVec(fns + [main])])])
+        except Limit as e_: raise Panic('HANG-CANDIDATE: ' + str(e_))
+        out = []
+        for f_ in res.fields[0].fields[0].items:
+            fd = dict(zip([x[0] for x in MFN.variants[0].fields], f_.fields))
+            out.append((ms.pystr(fd['name']), [shape(p_.fields[1], TY) for p_ in fd['params'].items], shape(fd['ret_ty'], TY)))
+        return kind, gname, out
+    res = e2.explore(r, W, entry, [])
+    for p in res:
+        r.cases += 1
+        if p.kind != 'ok':
+            if not any(f.key == 'panic' for f in r.findings): r.findings.append(Finding('panic', 'mono::mono panics / does not finish on program %s: %s' % ((p.notes or {}).get('kind'), p.value[:160]), {}, False, 'not replayed'))
+            continue
+        kind, gname, out = p.value
+        r.nontrivial += 1
+        insts = [o for o in out if o[0] == gname or o[0].startswith(gname + '__')]
+        resid = [o for o in out if any(shape_has_param(x) for x in o[1]) or shape_has_param(o[2])]
+        sigs = set(json.dumps([o[1], o[2]], sort_keys=True) for o in insts)
+        if len(insts) != 2 or len(sigs) != 2 or resid:
+            if any(f.key == 'instances-shared-or-unspecialised' for f in r.findings): continue
+            ok_, detail = replay_mono_program(kind)
+            r.findings.append(Finding('instances-shared-or-unspecialised', 'program (%s): mono emits the instances %s of `%s`%s' % (kind, [o[0] for o in insts], gname, '; type parameters survive in ' + str([o[0] for o in resid]) if resid else ''), {'kind': kind, 'instances': [o[0] for o in insts]}, ok_, detail))
+        else: r.samples.append({'program': kind, 'instances': [o[0] for o in insts]})
+
+_obligations_74 = obligations
+def obligations():
+    return _obligations_74() + [Ob('O7.5-call-site-instances', 'each call site of a generic function gets the instance of its own type arguments; no type parameter survives', ob_mono_instances, ('quick', 'thorough'), 5, {})]
